@@ -267,6 +267,31 @@ impl System for RkSys {
 					return Step::Violation(Failure::new("Renko/output/iterator-nth", format!("nth({k})")));
 				}
 			}
+			// the same on a partially consumed output: a bricks taken with next(), then nth / skip / step_by /
+			// last / count / len on the rest
+			for a in 0..=len.min(4) {
+				for k in 0..=(len - a).min(4) {
+					let adv = || {
+						let mut j = it.clone();
+						for _ in 0..a {
+							j.next();
+						}
+						j
+					};
+					let rest = &all[a..];
+					let ok = adv().nth(k) == rest.get(k).copied()
+						&& adv().skip(k).take(70).collect::<Vec<_>>() == rest.iter().skip(k).take(70).copied().collect::<Vec<_>>()
+						&& adv().step_by(k + 1).take(70).collect::<Vec<_>>() == rest.iter().step_by(k + 1).take(70).copied().collect::<Vec<_>>()
+						&& adv().nth(k + rest.len()).is_none()
+						&& { let mut j = adv(); j.nth(rest.len() + 3); j.next().is_none() && j.len() == 0 }
+						&& adv().last() == rest.last().copied()
+						&& adv().count() == rest.len()
+						&& adv().len() == rest.len();
+					if !ok {
+						return Step::Violation(Failure::new("Renko/output/iterator-after-partial-consumption", format!("{len} bricks, {a} taken with next(), then nth({k}) / skip({k}) / step_by({}) / last / count / len disagree with the collected bricks", k + 1)));
+					}
+				}
+			}
 			let mut j = it.clone();
 			for _ in 0..len {
 				j.next();
